@@ -225,7 +225,7 @@ func (q *Query) Instantiated(level int) (*Query, *Query) {
 		seen[s] = true
 	}
 	groundIndexTerms([]*Term{goal}, cands, seen, 10, withSub)
-	groundIndexTerms(q.Hyps, cands, seen, 14, withSub)
+	groundIndexTerms(orderByRelevance(goal, q.Hyps), cands, seen, 14, withSub)
 	if level >= 2 {
 		// width casts of index-like candidates: a uint16 slot number used as an int index and vice versa
 		add := func(t *Term) {
@@ -605,6 +605,82 @@ func (q *Query) AbstractArith() *Query {
 	}
 	if !changed {
 		return nil
+	}
+	return out
+}
+
+// allSyms: names of the free variables (any sort) and uninterpreted functions of t.
+func allSyms(t *Term, into map[string]bool) {
+	seen := map[*Term]bool{}
+	var rec func(t *Term)
+	rec = func(t *Term) {
+		if seen[t] {
+			return
+		}
+		seen[t] = true
+		if t.Op == "var" {
+			into[t.Name] = true
+			return
+		}
+		if strings.HasPrefix(t.Op, "app:") {
+			into[t.Op] = true
+		}
+		for _, a := range t.Args {
+			rec(a)
+		}
+	}
+	rec(t)
+}
+
+// orderByRelevance orders the hypotheses by their distance from the goal in the "shares a symbol" graph
+// (symbols that occur in more than a quarter of the hypotheses do not connect). Candidate terms for
+// instantiation are collected in this order, so the bounded candidate lists fill up with the nearest terms first.
+func orderByRelevance(goal *Term, hyps []*Term) []*Term {
+	if len(hyps) < 40 {
+		return hyps
+	}
+	syms := make([]map[string]bool, len(hyps))
+	freq := map[string]int{}
+	for i, h := range hyps {
+		syms[i] = map[string]bool{}
+		allSyms(h, syms[i])
+		for s := range syms[i] {
+			freq[s]++
+		}
+	}
+	common := func(s string) bool { return freq[s]*4 > len(hyps) }
+	cone := map[string]bool{}
+	allSyms(goal, cone)
+	picked := make([]bool, len(hyps))
+	var out []*Term
+	for round := 0; round < 6; round++ {
+		var add []int
+		for i := range hyps {
+			if picked[i] {
+				continue
+			}
+			for s := range syms[i] {
+				if cone[s] && !common(s) {
+					add = append(add, i)
+					break
+				}
+			}
+		}
+		if len(add) == 0 {
+			break
+		}
+		for _, i := range add {
+			picked[i] = true
+			out = append(out, hyps[i])
+			for s := range syms[i] {
+				cone[s] = true
+			}
+		}
+	}
+	for i, h := range hyps {
+		if !picked[i] {
+			out = append(out, h)
+		}
 	}
 	return out
 }
